@@ -2,6 +2,7 @@ package main
 
 import (
 	"fmt"
+	"strings"
 	"go/token"
 	"go/types"
 
@@ -426,6 +427,20 @@ func runC05(c *Ctx) {
 		}
 		if n < 4 {
 			c.Undecided("OnError implementations", "-", fmt.Sprintf("expected 4 request types with OnError, found %d", n))
+		}
+	}
+
+	// ---------- R4 shared with C01.R5
+	{
+		sub := NewCtx(p, "C01", c.Tier, c.Config)
+		if a := findPQ(p); a != nil {
+			runC01Chain(sub, a)
+		}
+		c.Rule("R4", "TAB+CHAIN", "a retry wait interrupted by shutdown ends with a shutdown-classified error that survives the sender chain up to the queue's completion callback (same rule as C01.R5)", 10)
+		for _, o := range sub.Obs {
+			if o.Rule == "C01.R5" && !strings.HasPrefix(o.Construct, "floor:") {
+				c.add(o.Verdict, o.Construct, o.Pos, o.Detail)
+			}
 		}
 	}
 
